@@ -40,12 +40,12 @@ type rtBuild struct {
 }
 
 type rtCacheMeta struct {
-	Reports     []*instr.RTPkgReport  `json:"reports"`
-	Metas       map[string]rtPkgMeta  `json:"metas"`
-	Unbuildable map[string]string     `json:"unbuildable"`
-	BuildS      float64               `json:"build_s"`
-	TreeHash    string                `json:"tree_hash"`
-	CorpusN     int                   `json:"corpus_n"`
+	Reports     []*instr.RTPkgReport `json:"reports"`
+	Metas       map[string]rtPkgMeta `json:"metas"`
+	Unbuildable map[string]string    `json:"unbuildable"`
+	BuildS      float64              `json:"build_s"`
+	TreeHash    string               `json:"tree_hash"`
+	CorpusN     int                  `json:"corpus_n"`
 }
 
 var identRe = regexp.MustCompile(`[^a-zA-Z0-9_]`)
@@ -367,7 +367,8 @@ func checkRT(prop, tier string) int {
 	scratch := newScratch()
 	defer cleanupScratch()
 	b := prepareRT(scratch)
-	quickRuns := map[string]int{"C09": 240000, "C10": 240000, "C14": 240000, "C20": 48000}[prop]
+	// the quick tier is bounded by its 100 s budget rather than by these counts on a loaded machine
+	quickRuns := map[string]int{"C09": 960000, "C10": 960000, "C14": 960000, "C20": 160000}[prop]
 	budget := 100.0
 	maxRuns := envInt("VERIF_RT_RUNS", quickRuns)
 	if tier == "thorough" {
@@ -503,32 +504,32 @@ func checkRT(prop, tier string) int {
 	}
 	ev := &Evidence{PropertyID: prop, Tier: tier, Seed: int64(seed), Level: "exploration", WallS: wall, Violations: unknown,
 		Coverage: map[string]any{
-			"evaluations":                  runs,
-			"distinct_nontrivial":          len(distinct),
-			"rule":                         rtRules[prop],
-			"samples":                      samples,
-			"simulated_runs":               runs,
-			"simulated_requests":           reqs,
+			"evaluations":                    runs,
+			"distinct_nontrivial":            len(distinct),
+			"rule":                           rtRules[prop],
+			"samples":                        samples,
+			"simulated_runs":                 runs,
+			"simulated_requests":             reqs,
 			"simulated_time_scheduler_steps": steps,
-			"runs_per_hour":                int(float64(runs) / wall * 3600),
-			"cpu_seconds_in_workers":       cpu,
-			"faults_planned_by_kind":       faults,
+			"runs_per_hour":                  int(float64(runs) / wall * 3600),
+			"cpu_seconds_in_workers":         cpu,
+			"faults_planned_by_kind":         faults,
 			"faults_and_rare_conditions_actually_hit": probes,
-			"probes_at_zero":               zeroProbes,
-			"counters":                     counters,
-			"distinct_overlap_site_pairs":  len(pairs),
-			"packages_under_simulation":    len(b.Reports),
-			"runs_per_package":             pkgs,
-			"specs_unbuildable":            b.Unbuildable,
-			"yield_sites_inserted":         yields,
-			"map_ranges_pinned":            mapSites,
-			"packages_using_sync":          syncPkgs,
-			"known_findings_hit":           knownHit,
-			"determinism_canary":           "48 seeds re-run in 2+2 extra processes with GOMAXPROCS 1 and 4: event-log hashes identical",
-			"real_vs_stub":                 "real: generated router/handlers/codecs/client (statement-level yields inserted), encoding/json, net/url, net/http wire codec (Request.Write, ReadRequest, Response.Write, ReadResponse), kin-openapi openapi3filter (C09 oracle 2); stub: TCP, net/http server connection loop and ResponseWriter (server shell), http.Transport (SimTransport), goroutine scheduler (tape), user handlers/authenticators/middlewares/CORS handler (recording harness)",
-			"build_s":                      b.BuildS,
-			"build_cached":                 b.Cached,
-			"repo_tree_hash":               b.TreeHash,
+			"probes_at_zero":              zeroProbes,
+			"counters":                    counters,
+			"distinct_overlap_site_pairs": len(pairs),
+			"packages_under_simulation":   len(b.Reports),
+			"runs_per_package":            pkgs,
+			"specs_unbuildable":           b.Unbuildable,
+			"yield_sites_inserted":        yields,
+			"map_ranges_pinned":           mapSites,
+			"packages_using_sync":         syncPkgs,
+			"known_findings_hit":          knownHit,
+			"determinism_canary":          "48 seeds re-run in 2+2 extra processes with GOMAXPROCS 1 and 4: event-log hashes identical",
+			"real_vs_stub":                "real: generated router/handlers/codecs/client (statement-level yields inserted), encoding/json, net/url, net/http wire codec (Request.Write, ReadRequest, Response.Write, ReadResponse), kin-openapi openapi3filter (C09 oracle 2); stub: TCP, net/http server connection loop and ResponseWriter (server shell), http.Transport (SimTransport), goroutine scheduler (tape), user handlers/authenticators/middlewares/CORS handler (recording harness)",
+			"build_s":                     b.BuildS,
+			"build_cached":                b.Cached,
+			"repo_tree_hash":              b.TreeHash,
 		},
 		Assumptions: []string{
 			"statement-level atomicity: a task can be preempted only at inserted yields (before every statement of the generated package) and at the transport/stream/ResponseWriter seams",
@@ -597,4 +598,3 @@ func replayFileRT(path, prop string) int {
 	fmt.Printf("VIOLATION property=%s replay=%s\n", prop, path)
 	return 1
 }
-
